@@ -8,19 +8,26 @@
 
   Specification graph (Hs.Lemmas.NsGraph): `RawEdge g a b` = "`a` is a def and `b` is a Symbol item of its `is`
   list", `Edge g a b` = `RawEdge g a b` and `b` is a def.  Closures are `Relation.TransGen` / `ReflTransGen`.
-  `Acyclic g` = a topological numbering of the `is` items bounded by the number of defs.
 
-  The theorems hold for EVERY defs grid `rows` (any size, duplicates of a `def` symbol, rows without `def`,
-  non-Symbol items in `is`, undefined supertypes, conjuncts, feature keys) whose `is` graph is acyclic, with
-  every fuel `≥ fuelFor g`; results are compared as sets.  Two observations the statements make explicit:
+  The theorems hold for EVERY defs grid `rows` - any size, duplicates of a `def` symbol, rows without `def`,
+  non-Symbol items in `is`, undefined supertypes, conjuncts, feature keys, and `is` lists that form CYCLES
+  (self loops `a is [a]`, 2-cycles, longer cycles, cycles with tails, cycles through diamonds) - with every
+  fuel `≥ fuelFor g = (number of defs) + 1`; results are compared as sets.  There is no acyclicity hypothesis:
+  since /repo da32af2 the work-list loops expand a def only the first time it enters the result set, so
+  * they end on every graph within `fuelFor g` iterations (`allSupertypes_spec`, `allSubtypes_spec`; measure:
+    stack height + number of defs not yet collected; the bound is attained: `fuel_bound_sharp`), and never
+    answer `diverge` (`allSupertypes_never_diverge`, `allSubtypes_never_diverge`);
+  * what they return is exactly the set of defs reachable by one or more `is` edges; a def on a cycle is its own
+    transitive supertype and subtype (`cycle_member_is_own_supertype`), and all members of a cycle fit each
+    other (`cycle_members_fit`).
+  Two observations the statements make explicit:
   * `subtypes_of` / `all_subtypes_of` of an UNDEFINED symbol that is mentioned in `is` lists are not empty
     (the index is keyed by the mentioned symbol): the subtype side is stated with `RawEdge`, and with `Edge` for
     defined symbols;
   * `reflect` only looks for conjuncts among the tags that HAVE A DEF and carry a Marker: `Seed`.  For a
     normalised namespace (every part of a conjunct def is itself a def) this is the statement's "every conjunct
     whose parts are all marker tags of the record" (`reflect_spec_normalised`).
-  The loops have no visited check, so the fuel bound is exponential (`fuelFor`); without acyclicity the
-  loops still return the exact closure whenever they end (`allSupertypes_exact_of_ok`).
+  `Acyclic` (a topological numbering) survives only to state that the cyclic examples below ARE cyclic.
 -/
 import Hs.Lemmas.NsSpec
 namespace Hs.C13
@@ -37,22 +44,20 @@ theorem supertypes_spec (rows : List Row) (s b : Name) :
 theorem subtypes_spec (rows : List Row) (s x : Name) :
     x ∈ subtypesOf (make rows) s ↔ RawEdge (make rows).defs x s := mem_subtypesOf rows s x
 
-/-- transitive supertypes: the work-list loop ends within `fuelFor` and returns the transitive closure -/
-theorem allSupertypes_spec (rows : List Row) (hac : Acyclic (make rows).defs) (fuel : Nat)
-    (hf : fuelFor (make rows).defs ≤ fuel) (s : Name) :
+/-- transitive supertypes, EVERY graph (cycles included): the work-list loop ends within `fuelFor` and returns
+the transitive closure -/
+theorem allSupertypes_spec (rows : List Row) (fuel : Nat) (hf : fuelFor (make rows).defs ≤ fuel) (s : Name) :
     ∃ res, allSupertypesOf fuel (make rows) s = .ok res ∧ res.Nodup ∧
-      ∀ x, x ∈ res ↔ TransGen (Edge (make rows).defs) s x := allSupertypesOf_spec rows hac fuel hf s
+      ∀ x, x ∈ res ↔ TransGen (Edge (make rows).defs) s x := allSupertypesOf_spec rows fuel hf s
 
-/-- transitive subtypes -/
-theorem allSubtypes_spec (rows : List Row) (hac : Acyclic (make rows).defs) (fuel : Nat)
-    (hf : fuelFor (make rows).defs ≤ fuel) (s : Name) :
+/-- transitive subtypes, EVERY graph (cycles included) -/
+theorem allSubtypes_spec (rows : List Row) (fuel : Nat) (hf : fuelFor (make rows).defs ≤ fuel) (s : Name) :
     ∃ res, allSubtypesOf fuel (make rows) s = .ok res ∧ res.Nodup ∧
-      ∀ x, x ∈ res ↔ TransGen (RawEdge (make rows).defs) x s := allSubtypesOf_spec rows hac fuel hf s
+      ∀ x, x ∈ res ↔ TransGen (RawEdge (make rows).defs) x s := allSubtypesOf_spec rows fuel hf s
 
-theorem allSubtypes_spec_defined (rows : List Row) (hac : Acyclic (make rows).defs) (fuel : Nat)
-    (hf : fuelFor (make rows).defs ≤ fuel) (s : Name) (hs : defined (make rows).defs s = true) :
+theorem allSubtypes_spec_defined (rows : List Row) (fuel : Nat) (hf : fuelFor (make rows).defs ≤ fuel) (s : Name) (hs : defined (make rows).defs s = true) :
     ∃ res, allSubtypesOf fuel (make rows) s = .ok res ∧
-      ∀ x, x ∈ res ↔ TransGen (Edge (make rows).defs) x s := allSubtypesOf_spec_defined rows hac fuel hf s hs
+      ∀ x, x ∈ res ↔ TransGen (Edge (make rows).defs) x s := allSubtypesOf_spec_defined rows fuel hf s hs
 
 /-- whatever the graph (cycles included) and the fuel: IF the loop ends, its answer is the closure -/
 theorem allSupertypes_exact_of_ok (ns : Ns) (fuel : Nat) (s : Name) (res : List Name)
@@ -61,23 +66,68 @@ theorem allSupertypes_exact_of_ok (ns : Ns) (fuel : Nat) (s : Name) (res : List 
   rw [wl_exact_of_ok (supertypesOf ns.defs) false fuel s res h x]
   exact transGen_congr (fun a b => mem_supertypesOf) s x
 
+/-- the explicit fuel bound: one iteration more than there are defs -/
+theorem fuelFor_eq (g : Defs) : fuelFor g = g.length + 1 := rfl
+
+/-- the traversals never answer `diverge`, whatever the graph -/
+theorem allSupertypes_never_diverge (rows : List Row) (fuel : Nat) (hf : fuelFor (make rows).defs ≤ fuel)
+    (s : Name) : allSupertypesOf fuel (make rows) s ≠ .diverge := by
+  obtain ⟨res, h, _⟩ := allSupertypes_spec rows fuel hf s
+  rw [h]; intro hc; cases hc
+
+theorem allSubtypes_never_diverge (rows : List Row) (fuel : Nat) (hf : fuelFor (make rows).defs ≤ fuel)
+    (s : Name) : allSubtypesOf fuel (make rows) s ≠ .diverge := by
+  obtain ⟨res, h, _⟩ := allSubtypes_spec rows fuel hf s
+  rw [h]; intro hc; cases hc
+
+/-- the supertype traversal needs the `defs` map only: the same for a namespace not made by `make` -/
+theorem allSupertypes_spec_any_ns (ns : Ns) (fuel : Nat) (hf : fuelFor ns.defs ≤ fuel) (s : Name) :
+    ∃ res, allSupertypesOf fuel ns s = .ok res ∧ res.Nodup ∧ ∀ x, x ∈ res ↔ TransGen (Edge ns.defs) s x :=
+  allSupertypesOf_spec_ns ns fuel hf s
+
+/-- a def on a cycle of `is` edges is one of its own transitive supertypes and subtypes -/
+theorem cycle_member_is_own_supertype (rows : List Row) (fuel : Nat) (hf : fuelFor (make rows).defs ≤ fuel)
+    (a : Name) (hcyc : TransGen (Edge (make rows).defs) a a) :
+    (∃ res, allSupertypesOf fuel (make rows) a = .ok res ∧ a ∈ res) ∧
+    (∃ res, allSubtypesOf fuel (make rows) a = .ok res ∧ a ∈ res) := by
+  obtain ⟨r1, h1, _, h1'⟩ := allSupertypes_spec rows fuel hf a
+  obtain ⟨r2, h2, _, h2'⟩ := allSubtypes_spec rows fuel hf a
+  exact ⟨⟨r1, h1, (h1' a).2 hcyc⟩, ⟨r2, h2, (h2' a).2 (tg_mono (fun _ _ => edge_raw) hcyc)⟩⟩
+
 /-- inheritance = the def and all its supertypes (nothing for an undefined symbol) -/
-theorem inheritance_spec (rows : List Row) (hac : Acyclic (make rows).defs) (fuel : Nat)
-    (hf : fuelFor (make rows).defs ≤ fuel) (s : Name) :
+theorem inheritance_spec (rows : List Row) (fuel : Nat) (hf : fuelFor (make rows).defs ≤ fuel) (s : Name) :
     ∃ res, inheritance fuel (make rows) s = .ok res ∧
       ∀ x, x ∈ res ↔ (defined (make rows).defs s = true ∧ ReflTransGen (Edge (make rows).defs) s x) :=
-  Ns.inheritance_spec rows hac fuel hf s
+  Ns.inheritance_spec rows fuel hf s
 
 theorem inheritance_is_def_cons_supertypes (fuel : Nat) (ns : Ns) (s : Name) (all : List Name)
     (hs : defined ns.defs s = true) (h : allSupertypesOf fuel ns s = .ok all) :
     inheritance fuel ns s = .ok (extendSet [s] all) := inheritance_eq fuel ns s all hs h
 
 /-- fits a b ⇔ both exist and b is a, or a transitive supertype of a -/
-theorem fits_spec (rows : List Row) (hac : Acyclic (make rows).defs) (fuel : Nat)
-    (hf : fuelFor (make rows).defs ≤ fuel) (a b : Name) :
+theorem fits_spec (rows : List Row) (fuel : Nat) (hf : fuelFor (make rows).defs ≤ fuel) (a b : Name) :
     ∃ v, fits fuel (make rows) a b = .ok v ∧
       (v = true ↔ (defined (make rows).defs a = true ∧ defined (make rows).defs b = true ∧
-        ReflTransGen (Edge (make rows).defs) a b)) := Ns.fits_spec rows hac fuel hf a b
+        ReflTransGen (Edge (make rows).defs) a b)) := Ns.fits_spec rows fuel hf a b
+
+/-- two defs that reach each other (they lie on a common cycle) fit each other -/
+theorem cycle_members_fit (rows : List Row) (fuel : Nat) (hf : fuelFor (make rows).defs ≤ fuel) (a b : Name)
+    (hab : TransGen (Edge (make rows).defs) a b) (hba : TransGen (Edge (make rows).defs) b a) :
+    fits fuel (make rows) a b = .ok true ∧ fits fuel (make rows) b a = .ok true := by
+  have hda : defined (make rows).defs a = true := by
+    obtain ⟨c, hc, _⟩ := TransGen.head'_iff.1 hab
+    obtain ⟨d, hd, _⟩ := hc
+    exact defined_iff.2 ⟨d, hd⟩
+  have hdb : defined (make rows).defs b = true := by
+    obtain ⟨c, hc, _⟩ := TransGen.head'_iff.1 hba
+    obtain ⟨d, hd, _⟩ := hc
+    exact defined_iff.2 ⟨d, hd⟩
+  obtain ⟨v, hv, hv'⟩ := fits_spec rows fuel hf a b
+  obtain ⟨w, hw, hw'⟩ := fits_spec rows fuel hf b a
+  have e1 : v = true := hv'.2 ⟨hda, hdb, hab.to_reflTransGen⟩
+  have e2 : w = true := hw'.2 ⟨hdb, hda, hba.to_reflTransGen⟩
+  subst e1; subst e2
+  exact ⟨hv, hw⟩
 
 /-- the driver's `fitsRow` is `fits` element-wise -/
 theorem fitsRow_spec (fuel : Nat) (ns : Ns) (a : Name) (bs r : List Name)
@@ -86,11 +136,10 @@ theorem fitsRow_spec (fuel : Nat) (ns : Ns) (a : Name) (bs r : List Name)
 
 /-- reflect = the seeds (defs of the record's tags; conjunct defs all of whose parts are defined Marker tags
 of the record) and all their supertypes -/
-theorem reflect_spec (rows : List Row) (hac : Acyclic (make rows).defs) (fuel : Nat)
-    (hf : fuelFor (make rows).defs ≤ fuel) (r : Rec) :
+theorem reflect_spec (rows : List Row) (fuel : Nat) (hf : fuelFor (make rows).defs ≤ fuel) (r : Rec) :
     ∃ res, reflect fuel (make rows) r = .ok res ∧
       ∀ x, x ∈ res ↔ ∃ t, Seed (make rows).defs r t ∧ ReflTransGen (Edge (make rows).defs) t x :=
-  Ns.reflect_spec rows hac fuel hf r
+  Ns.reflect_spec rows fuel hf r
 
 /-- every part of a conjunct def is itself a def (Haystack normalisation) -/
 def ConjunctPartsDefined (g : Defs) : Prop :=
@@ -111,12 +160,11 @@ theorem seed_iff_seedN (g : Defs) (hn : ConjunctPartsDefined g) (r : Rec) (t : N
     · exact Or.inl ⟨h1, h2⟩
     · exact Or.inr ⟨h1, h2, fun p hp => ⟨hn t h1 h2 p hp, h3 p hp⟩⟩
 
-theorem reflect_spec_normalised (rows : List Row) (hac : Acyclic (make rows).defs)
-    (hn : ConjunctPartsDefined (make rows).defs) (fuel : Nat)
+theorem reflect_spec_normalised (rows : List Row) (hn : ConjunctPartsDefined (make rows).defs) (fuel : Nat)
     (hf : fuelFor (make rows).defs ≤ fuel) (r : Rec) :
     ∃ res, reflect fuel (make rows) r = .ok res ∧
       ∀ x, x ∈ res ↔ ∃ t, SeedN (make rows).defs r t ∧ ReflTransGen (Edge (make rows).defs) t x := by
-  obtain ⟨res, h1, h2⟩ := Ns.reflect_spec rows hac fuel hf r
+  obtain ⟨res, h1, h2⟩ := Ns.reflect_spec rows fuel hf r
   refine ⟨res, h1, fun x => ?_⟩
   rw [h2 x]
   constructor
@@ -124,11 +172,10 @@ theorem reflect_spec_normalised (rows : List Row) (hac : Acyclic (make rows).def
   · rintro ⟨t, ht, h⟩; exact ⟨t, (seed_iff_seedN _ hn r t).2 ht, h⟩
 
 /-- the filter term `^base` matches a record exactly when one of its seeds fits `base` -/
-theorem isA_spec (rows : List Row) (hac : Acyclic (make rows).defs) (fuel : Nat)
-    (hf : fuelFor (make rows).defs ≤ fuel) (r : Rec) (base : Name) :
+theorem isA_spec (rows : List Row) (fuel : Nat) (hf : fuelFor (make rows).defs ≤ fuel) (r : Rec) (base : Name) :
     ∃ v, reflFits fuel (make rows) r base = .ok v ∧
       (v = true ↔ ∃ t, Seed (make rows).defs r t ∧ defined (make rows).defs base = true ∧
-        ReflTransGen (Edge (make rows).defs) t base) := reflFits_spec rows hac fuel hf r base
+        ReflTransGen (Edge (make rows).defs) t base) := reflFits_spec rows fuel hf r base
 
 /-- `choices_for`: the direct subtypes of a def that lists the Symbol `choice` in `is` -/
 theorem choices_spec (rows : List Row) (s x : Name) :
@@ -140,9 +187,9 @@ theorem choices_spec (rows : List Row) (s x : Name) :
 theorem conjuncts_spec (ns : Ns) (s x : Name) :
     x ∈ conjunctsDefs ns s ↔ (x ∈ splitDash s ∧ defined ns.defs x = true) := mem_conjunctsDefs ns s x
 
-/-- The property at full strength. -/
+/-- The property at full strength: every defs grid, cyclic included. -/
 def C13_full : Prop :=
-  ∀ rows : List Row, Acyclic (make rows).defs → ∀ fuel, fuelFor (make rows).defs ≤ fuel →
+  ∀ rows : List Row, ∀ fuel, fuelFor (make rows).defs ≤ fuel →
     (∀ s b, b ∈ supertypesOf (make rows).defs s ↔ Edge (make rows).defs s b) ∧
     (∀ s x, x ∈ subtypesOf (make rows) s ↔ RawEdge (make rows).defs x s) ∧
     (∀ s, ∃ res, allSupertypesOf fuel (make rows) s = .ok res ∧
@@ -160,15 +207,15 @@ def C13_full : Prop :=
         (v = true ↔ ∃ t, Seed (make rows).defs r t ∧ defined (make rows).defs base = true ∧
           ReflTransGen (Edge (make rows).defs) t base))
 
-theorem C13_holds : C13_full := fun rows hac fuel hf =>
+theorem C13_holds : C13_full := fun rows fuel hf =>
   ⟨fun s b => supertypes_spec rows s b, fun s x => subtypes_spec rows s x,
-   fun s => let ⟨res, h1, _, h3⟩ := allSupertypes_spec rows hac fuel hf s; ⟨res, h1, h3⟩,
-   fun s => let ⟨res, h1, _, h3⟩ := allSubtypes_spec rows hac fuel hf s; ⟨res, h1, h3⟩,
-   fun s => inheritance_spec rows hac fuel hf s, fun a b => fits_spec rows hac fuel hf a b,
-   fun r => reflect_spec rows hac fuel hf r, fun r base => isA_spec rows hac fuel hf r base⟩
+   fun s => let ⟨res, h1, _, h3⟩ := allSupertypes_spec rows fuel hf s; ⟨res, h1, h3⟩,
+   fun s => let ⟨res, h1, _, h3⟩ := allSubtypes_spec rows fuel hf s; ⟨res, h1, h3⟩,
+   fun s => inheritance_spec rows fuel hf s, fun a b => fits_spec rows fuel hf a b,
+   fun r => reflect_spec rows fuel hf r, fun r base => isA_spec rows fuel hf r base⟩
 
-/-! Non-vacuity: a grid with a diamond (`d` is `a` and `b`, both are `m`), an undefined supertype (`zz`), a
-conjunct (`a-b`), a duplicate row and a row without `def` is acyclic, and the model computes on it. -/
+/-! Non-vacuity (1): a grid with a diamond (`d` is `a` and `b`, both are `m`), an undefined supertype (`zz`), a
+conjunct (`a-b`), a duplicate row and a row without `def`; this one is acyclic, and the model computes on it. -/
 def exRows : List Row :=
   [ { name := some ['m'], isRaw := [] },
     { name := some ['a'], isRaw := [some ['m']] },
@@ -227,5 +274,110 @@ example : ConjunctPartsDefined (make exRows).defs := by
   rw [this] at hp
   simp only [List.mem_cons, List.not_mem_nil, or_false] at hp
   rcases hp with rfl | rfl <;> decide
+
+/-! Non-vacuity (2): the 2-cycle of the repaired defect, `aa is [bb]`, `bb is [aa]`.  It admits no topological
+numbering, the traversals end within `fuelFor = 3` iterations and return the closure; each def is its own
+supertype and subtype, the two fit each other, a record tagged `aa` reflects both and matches `^bb`. -/
+def cyc2Rows : List Row :=
+  [ { name := some ['a', 'a'], isRaw := [some ['b', 'b']] },
+    { name := some ['b', 'b'], isRaw := [some ['a', 'a']] } ]
+
+theorem cyc2_edge_ab : Edge (make cyc2Rows).defs ['a', 'a'] ['b', 'b'] :=
+  ⟨{ name := ['a', 'a'], isRaw := [some ['b', 'b']] }, by decide, by decide, by decide⟩
+theorem cyc2_edge_ba : Edge (make cyc2Rows).defs ['b', 'b'] ['a', 'a'] :=
+  ⟨{ name := ['b', 'b'], isRaw := [some ['a', 'a']] }, by decide, by decide, by decide⟩
+
+theorem cyc2_cycle : TransGen (Edge (make cyc2Rows).defs) ['a', 'a'] ['a', 'a'] :=
+  TransGen.head cyc2_edge_ab (TransGen.single cyc2_edge_ba)
+
+example : ¬ Acyclic (make cyc2Rows).defs :=
+  not_acyclic_of_cycle (tg_mono (fun _ _ => edge_raw) cyc2_cycle)
+
+example : fuelFor (make cyc2Rows).defs = 3 := by decide
+example : allSupertypesOf (fuelFor (make cyc2Rows).defs) (make cyc2Rows) ['a', 'a']
+    = .ok [['b', 'b'], ['a', 'a']] := by decide +kernel
+example : allSubtypesOf (fuelFor (make cyc2Rows).defs) (make cyc2Rows) ['a', 'a']
+    = .ok [['b', 'b'], ['a', 'a']] := by decide +kernel
+example : inheritance (fuelFor (make cyc2Rows).defs) (make cyc2Rows) ['b', 'b']
+    = .ok [['b', 'b'], ['a', 'a']] := by decide +kernel
+example : fits (fuelFor (make cyc2Rows).defs) (make cyc2Rows) ['a', 'a'] ['b', 'b'] = .ok true ∧
+    fits (fuelFor (make cyc2Rows).defs) (make cyc2Rows) ['b', 'b'] ['a', 'a'] = .ok true :=
+  cycle_members_fit cyc2Rows _ (Nat.le_refl _) _ _ (TransGen.single cyc2_edge_ab) (TransGen.single cyc2_edge_ba)
+example : reflect (fuelFor (make cyc2Rows).defs) (make cyc2Rows) [(['a', 'a'], true)]
+    = .ok [['a', 'a'], ['b', 'b']] := by decide +kernel
+example : reflFits (fuelFor (make cyc2Rows).defs) (make cyc2Rows) [(['a', 'a'], false)] ['b', 'b']
+    = .ok true := by decide +kernel
+
+/-! Non-vacuity (3): a cycle with a tail and a diamond inside, a self loop, an exit, an undefined supertype and a
+conjunct:  `t → a`,  `a → b, c`,  `b → d`,  `c → d`,  `d → a, m, zz`  (the diamond `a → b|c → d` closes the cycle
+`d → a`; `t` is the tail, `m` the exit, `zz` has no def),  `s → s, m`  (self loop),  `b-c → t`. -/
+def cycRows : List Row :=
+  [ { name := some ['t'], isRaw := [some ['a']] },
+    { name := some ['a'], isRaw := [some ['b'], some ['c']] },
+    { name := some ['b'], isRaw := [some ['d']] },
+    { name := some ['c'], isRaw := [some ['d'], none] },
+    { name := some ['d'], isRaw := [some ['a'], some ['m'], some ['z', 'z']] },
+    { name := some ['m'], isRaw := [] },
+    { name := some ['s'], isRaw := [some ['s'], some ['m']] },
+    { name := some ['b', '-', 'c'], isRaw := [some ['t']] } ]
+
+theorem cyc_edge_ab : Edge (make cycRows).defs ['a'] ['b'] :=
+  ⟨{ name := ['a'], isRaw := [some ['b'], some ['c']] }, by decide, by decide, by decide⟩
+theorem cyc_edge_bd : Edge (make cycRows).defs ['b'] ['d'] :=
+  ⟨{ name := ['b'], isRaw := [some ['d']] }, by decide, by decide, by decide⟩
+theorem cyc_edge_da : Edge (make cycRows).defs ['d'] ['a'] :=
+  ⟨{ name := ['d'], isRaw := [some ['a'], some ['m'], some ['z', 'z']] }, by decide, by decide, by decide⟩
+
+theorem cyc_cycle : TransGen (Edge (make cycRows).defs) ['a'] ['a'] :=
+  TransGen.head cyc_edge_ab (TransGen.head cyc_edge_bd (TransGen.single cyc_edge_da))
+
+theorem cyc_self_loop : Edge (make cycRows).defs ['s'] ['s'] :=
+  ⟨{ name := ['s'], isRaw := [some ['s'], some ['m']] }, by decide, by decide, by decide⟩
+
+example : ¬ Acyclic (make cycRows).defs :=
+  not_acyclic_of_cycle (tg_mono (fun _ _ => edge_raw) cyc_cycle)
+
+example : fuelFor (make cycRows).defs = 9 := by decide
+-- from the tail: the whole cycle, the diamond and the exit, not the tail itself
+example : allSupertypesOf (fuelFor (make cycRows).defs) (make cycRows) ['t']
+    = .ok [['a'], ['b'], ['c'], ['d'], ['m']] := by decide +kernel
+-- from inside the cycle: the def itself is among its supertypes
+example : allSupertypesOf (fuelFor (make cycRows).defs) (make cycRows) ['a']
+    = .ok [['b'], ['c'], ['d'], ['a'], ['m']] := by decide +kernel
+example : allSupertypesOf (fuelFor (make cycRows).defs) (make cycRows) ['s']
+    = .ok [['s'], ['m']] := by decide +kernel
+example : allSubtypesOf (fuelFor (make cycRows).defs) (make cycRows) ['a']
+    = .ok [['t'], ['d'], ['b'], ['c'], ['a'], ['b', '-', 'c']] := by decide +kernel
+example : allSubtypesOf (fuelFor (make cycRows).defs) (make cycRows) ['m']
+    = .ok [['d'], ['s'], ['b'], ['c'], ['a'], ['t'], ['b', '-', 'c']] := by decide +kernel
+-- an undefined symbol below which the cycle hangs
+example : allSubtypesOf (fuelFor (make cycRows).defs) (make cycRows) ['z', 'z']
+    = .ok [['d'], ['b'], ['c'], ['a'], ['t'], ['b', '-', 'c']] := by decide +kernel
+example : inheritance (fuelFor (make cycRows).defs) (make cycRows) ['d']
+    = .ok [['d'], ['a'], ['m'], ['b'], ['c']] := by decide +kernel
+example : fits (fuelFor (make cycRows).defs) (make cycRows) ['d'] ['c'] = .ok true ∧
+    fits (fuelFor (make cycRows).defs) (make cycRows) ['a'] ['t'] = .ok false ∧
+    fits (fuelFor (make cycRows).defs) (make cycRows) ['s'] ['s'] = .ok true := by decide +kernel
+example : (∃ res, allSupertypesOf (fuelFor (make cycRows).defs) (make cycRows) ['s'] = .ok res ∧ ['s'] ∈ res) ∧
+    (∃ res, allSubtypesOf (fuelFor (make cycRows).defs) (make cycRows) ['s'] = .ok res ∧ ['s'] ∈ res) :=
+  cycle_member_is_own_supertype cycRows _ (Nat.le_refl _) ['s'] (TransGen.single cyc_self_loop)
+-- a record whose marker tags `b`, `c` name the conjunct `b-c`, which leads through the tail into the cycle
+example : reflect (fuelFor (make cycRows).defs) (make cycRows) [(['b'], true), (['c'], true), (['q'], true)]
+    = .ok [['b'], ['d'], ['a'], ['m'], ['c'], ['b', '-', 'c'], ['t']] := by decide +kernel
+example : reflFits (fuelFor (make cycRows).defs) (make cycRows) [(['b'], true), (['c'], true)] ['t'] = .ok true ∧
+    reflFits (fuelFor (make cycRows).defs) (make cycRows) [(['b'], true), (['c'], false)] ['t'] = .ok false ∧
+    reflFits (fuelFor (make cycRows).defs) (make cycRows) [(['s'], false)] ['m'] = .ok true := by decide +kernel
+
+/-! The fuel bound is attained: below the undefined symbol `nowhere` hang both defs of this grid, the subtype
+traversal pops `1 + 2` vectors; one unit of fuel less and the model reports `diverge`. -/
+def chainRows : List Row :=
+  [ { name := some ['x'], isRaw := [some ['n', 'o', 'w', 'h', 'e', 'r', 'e']] },
+    { name := some ['y'], isRaw := [some ['x']] } ]
+
+theorem fuel_bound_sharp :
+    allSubtypesOf (fuelFor (make chainRows).defs) (make chainRows) ['n', 'o', 'w', 'h', 'e', 'r', 'e']
+      = .ok [['x'], ['y']] ∧
+    allSubtypesOf (fuelFor (make chainRows).defs - 1) (make chainRows) ['n', 'o', 'w', 'h', 'e', 'r', 'e']
+      = .diverge := by decide +kernel
 
 end Hs.C13
